@@ -54,9 +54,17 @@ type Prop struct {
 	Timeout time.Duration
 	// Direct is an optional in-process sweep (needs no model); it appends to the report.
 	Direct func(g *G, r *Report)
+<<<<<<< HEAD
 	// Canon (optional) canonicalises an answer line (of the implementation AND of the model)
 	// before anything is compared, e.g. JavaScript text -> token stream.
 	Canon func(ans string) string
+=======
+	// Canon optionally canonicalises the implementation's answer before any comparison
+	// (e.g. CRASH -> PANIC where the real code panics in a goroutine that cannot be recovered).
+	Canon func(impl string) string
+	// NTOf optionally decides non-triviality from the implementation's answer (overrides Case.NT).
+	NTOf func(c *Case, impl string) bool
+>>>>>>> main
 }
 
 var props = map[string]*Prop{}
@@ -148,6 +156,11 @@ func corrMain(args []string) {
 			}
 		}
 		impl := runAll(selfWorkerArgv(), reqs, ncpu, timeout)
+		if p.Canon != nil {
+			for i := range impl {
+				impl[i] = p.Canon(impl[i])
+			}
+		}
 		model := runAll([]string{*driver}, reqs, ncpu, 20*time.Second)
 		spec := map[int]string{}
 		if len(specReqs) > 0 {
@@ -174,6 +187,9 @@ func corrMain(args []string) {
 				outcome = outcome[:k]
 			}
 			rep.Distribution["outcome:"+outcome]++
+			if p.NTOf != nil {
+				c.NT = p.NTOf(c, impl[i])
+			}
 			if c.NT && !seen[c.Req] {
 				seen[c.Req] = true
 				rep.DistinctNT++
